@@ -29,7 +29,8 @@ EXPLANATION = (
     'un-keyed clock range only spans table entries that are fixed and equal; the material-hash slot key is computed in unsigned '
     'arithmetic; (4) the case labels of the material switch in endGameEval are closed under MatId::mirror, and for every mirrored pair '
     'that ends in a helper call the black call is the sigma-image of the white call (same helper, negated result, colour-swapped '
-    'arguments with squares rotated by 180 degrees, side to move inverted, score negated).')
+    'arguments with squares rotated by 180 degrees, side to move inverted, score negated).'
+    ' (5) addSubWeights only loads, stores and applies wrapping 16-bit add / subtract in matching numbers (no clamp, no saturating intrinsic) in every build variant, and the full refresh uses the same routine as the incremental update.')
 UNDECIDED = ('numerical equality of incremental and from-scratch network outputs and of the SIMD kernels beyond the group-structure clause 5 (value-level), '
              'left-right mirror symmetry of the network, endgame cases that are written inline rather than as helper calls (listed as not covered).')
 ASSUMPTIONS = ['position domain: at most 30 non-king men', 'the helper evaluations (k*Eval) themselves are written from white\'s point of view']
